@@ -196,6 +196,91 @@ def anchor_unfit(segs):
     return any(s[0] == 'AK1' and len(s) > 1 and s[1] not in codes for s in segs)
 
 
+# ----- the command-line validator: the acknowledgement FILES it leaves next to its inputs -------------------
+def x12valid_docs():
+    out = []
+    ents = dict((e[4], e) for e in corpus.one_entry_per_map())
+    for f in ('834.4010.X095.A1.xml', '835.5010.X221.A1.xml'):
+        items_ = [it for it in corpus.shape_docs([ents[f]]) if it[0].endswith(':1x1x1') or it[0].endswith(':1x2x3:bad0') or it[0].endswith(':1x1x2:bad1')]
+        for it in items_:
+            out.append((it[0], corpus.text_of(it)))
+    return out
+
+
+def run_x12valid(texts):
+    """one invocation of pyx12.scripts.x12valid.main() on the given texts (written as in0.txt, in1.txt, ...) ->
+    list of the .997 file contents (None when no file was written)"""
+    import tempfile, shutil, os, sys, io, logging
+    import pyx12.scripts.x12valid as xv
+    from mc import pipe
+    pipe.stub_clock()
+    tmp = tempfile.mkdtemp(prefix='c06_', dir='/dev/shm' if os.path.isdir('/dev/shm') else None)
+    try:
+        paths = []
+        for i, t in enumerate(texts):
+            p = os.path.join(tmp, 'in%d.txt' % i)
+            with open(p, 'w', encoding='ascii', newline='') as f:
+                f.write(t)
+            paths.append(p)
+        argv0, err0 = sys.argv, sys.stderr
+        lg = logging.getLogger('pyx12'); h0 = list(lg.handlers); lvl = lg.level
+        sys.argv = ['x12valid', '-q'] + paths
+        sys.stderr = io.StringIO()
+        try:
+            xv.main()
+        finally:
+            sys.argv, sys.stderr = argv0, err0
+            lg.handlers[:] = h0; lg.setLevel(lvl)
+        out = []
+        for i in range(len(texts)):
+            q = os.path.join(tmp, 'in%d.997' % i)
+            out.append(open(q, encoding='ascii', newline='').read() if os.path.exists(q) else None)
+        return out
+    finally:
+        shutil.rmtree(tmp, ignore_errors=True)
+
+
+def judge_batch(labels, texts):
+    """every acknowledgement file of a batch run equals the file a run on that input alone leaves (clock and random stubbed)"""
+    from mc import pipe
+    v = []
+    try:
+        got = run_x12valid(texts)
+    except Exception as e:
+        return [('C06|x12valid|raises %s@%s' % (type(e).__name__, core.where(e)), 'x12valid on %r raised %r' % (labels, e))]
+    for i, (lab, t) in enumerate(zip(labels, texts)):
+        alone = run_x12valid([t])[0]
+        if got[i] != alone:
+            a = (alone or '').split('\n'); g = (got[i] or '').split('\n')
+            k = next((j for j in range(max(len(a), len(g))) if (a[j] if j < len(a) else None) != (g[j] if j < len(g) else None)), None)
+            v.append(('C06|x12valid|acknowledgement file of a batch run differs from the single run',
+                      'x12valid %s: the .997 of input %d (%s) has %d lines, alone %d; first difference at line %s: %r vs %r'
+                      % (' '.join(labels), i, lab, len(g), len(a), k, g[k] if k is not None and k < len(g) else None, a[k] if k is not None and k < len(a) else None)))
+            break
+        if alone:
+            segs = pipe.ack_segments(alone)
+            if not segs or segs[-1][0] != 'IEA' or sum(1 for s_ in segs if s_[0] == 'ISA') != 1:
+                v.append(('C06|x12valid|acknowledgement file is not one complete interchange', 'x12valid %s: %r' % (lab, alone[-120:])))
+    return v
+
+
+def work_batches(shard):
+    import itertools
+    P = core.Part()
+    docs = x12valid_docs()
+    part, nparts = shard
+    combos = list(itertools.permutations(range(len(docs)), 2)) + [c for c in itertools.permutations(range(len(docs)), 3)]
+    for ci, combo in enumerate(combos):
+        if ci % nparts != part:
+            continue
+        labels = [docs[i][0] for i in combo]; texts = [docs[i][1] for i in combo]
+        P.n += 1
+        P.out('x12valid|%d files' % len(combo))
+        for k, m in judge_batch(labels, texts):
+            P.bad(k, {'kind': 'x12valid', 'combo': list(combo)}, m)
+    return P
+
+
 def is999(segs):
     return any(s[0] == 'ST' and len(s) > 1 and s[1] == '999' for s in segs)
 
@@ -236,6 +321,9 @@ def work(shard):
 
 
 def evaluate(case):
+    if case.get('kind') == 'x12valid':
+        docs = x12valid_docs()
+        return judge_batch([docs[i][0] for i in case['combo']], [docs[i][1] for i in case['combo']])
     v, skip = run_text(case['label'], case['text'])
     return v or []
 
@@ -258,7 +346,9 @@ def run(R):
     materialise(R.thorough, sorted(set(s[0] for s in shards)))
     R.cov['documents_per_family'] = dict((k, len(v)) for k, v in ITEMS.items())
     R.pmap(work, shards)
-    R.bounds = {'corpus': 'the C05 corpora (incl. TA1-requesting interchanges) plus hostile-echo documents: 4 maps x 10 payloads containing ~ * : ^ LF x (6 free-text elements singly, 12 at once) and 8 payloads x 9 echoed envelope fields, 3 and 4 groups, all in ! | > delimiters'}
+    R.pmap(work_batches, [(p, 16) for p in range(16)])
+    R.bounds = {'x12valid': 'the command-line validator run on every ordered pair and triple of 6 documents (clean, one faulty set, faulty with several groups; 997 and 999): each .997 file it leaves must equal the file of a run on that input alone and be one complete interchange',
+                'corpus': 'the C05 corpora (incl. TA1-requesting interchanges) plus hostile-echo documents: 4 maps x 10 payloads containing ~ * : ^ LF x (6 free-text elements singly, 12 at once) and 8 payloads x 9 echoed envelope fields, 3 and 4 groups, all in ! | > delimiters'}
     R.assumptions = ['an acknowledgement is judged only when validation completed and something was written',
                      're-validation may reject the acknowledgement only through element errors on fields that echo source data (AK1/AK2/AK3-01/AK4-02,04, ISA/GS ids)']
     return R.finish(LEVEL, 'one document per execution; distinct = (family, kind)', exhaustive=True)
